@@ -640,7 +640,7 @@ def _view_rows(res, ctx, arms):
                     if isinstance(a, tuple) and a and a[0] == "SIZEOF":
                         S = Poly.atom(a)
                 if S is None:
-                    S = Poly.atom(("SIZEOF", "T"))
+                    S = Poly.atom(("SIZEOF", ctx.tparam(p, 0)))
             off_want = Poly() if part == "live" else L * S
             row.expect_eq("view start offset (bytes)", pp[1], off_want, v, "start")
             if part == "live":
@@ -652,7 +652,8 @@ def _view_rows(res, ctx, arms):
                     continue
                 n_want = (CAP - L) * S if unit == "bytes" else (CAP - L)
             row.expect_eq("view length", v["n"], n_want, v, "len")
-            if unit == "elems" and v["ety"] not in ("T", "core::mem::MaybeUninit<T>"):
+            T_ = ctx.tparam(p, 0)
+            if unit == "elems" and v["ety"] not in (T_, "core::mem::MaybeUninit<%s>" % T_):
                 row.fail("typed view element type is %s" % v["ety"], v, "type")
             row.done()
     # set_len stores its argument and nothing else
@@ -913,7 +914,7 @@ def _tempvalue_rows(res, ctx, ctors, ctor_by_adt):
             name = adt.split("::")[-1]
             roles = roles_all.get(adt, {})
             nidx = ctors.get(ctor_by_adt.get(adt), (None, None))[1]
-            for tt, I in ctx.arms(p, subst={"Op": im["self_ty"]}) or []:
+            for tt, I in ctx.arms(p, subst={ctx.tparam(p, 0): im["self_ty"]}) or []:
                 row = Row(res, ctx, "TempValue::%s:%s" % (what, name), p, tt, I)
                 st, fl = _final_len(I)
                 if nidx == 0:
@@ -961,7 +962,8 @@ def _swap_rows(res, ctx, arms):
         unk = [e for e in I.all_effects(("UNKNOWN",))]
         keys = sorted(tt)
         self_erased = tt.get("<Self as any_value::AnyValueSizeless>::Type")
-        other_erased = tt.get("<Other as any_value::AnyValueSizeless>::Type")
+        OT = "<%s as any_value::AnyValueSizeless>::Type" % ctx.tparam(p, -1)
+        other_erased = tt.get(OT)
         if len(sw) != 1:
             row.fail("expected exactly one swap primitive, found %d (%s)" % (len(sw), [u["what"] for u in unk][:2]))
             row.done()
@@ -979,7 +981,7 @@ def _swap_rows(res, ctx, arms):
                 elif list(n.atoms())[0][1] != a[0][1]:
                     row.fail("the byte count is not the size of the swapped value", s, "count")
         else:
-            want_t = "<Self as any_value::AnyValueSizeless>::Type" if not self_erased else "<Other as any_value::AnyValueSizeless>::Type"
+            want_t = "<Self as any_value::AnyValueSizeless>::Type" if not self_erased else OT
             ok = s["prim"] == "mem::swap" and s["ety"] == want_t and len(casts) == 2 and all(c["to"] == want_t for c in casts) \
                 and len({repr(c["value"]) for c in casts}) == 2
             if not ok:
@@ -1020,12 +1022,12 @@ def _bytes_ptr_rows(res, ctx, ctors, ctor_by_adt):
     for adt, a, b in pairs:
         substs = [None]
         if adt == "ops::temp::TempValue":
-            substs = [{"Op": im["self_ty"]} for im in fx.impls_of("ops::temp::Operation")]
+            substs = [{ctx.tparam(a, 0): im["self_ty"]} for im in fx.impls_of("ops::temp::Operation")]
         for sb in substs:
             ra = ctx.arms(a, subst=sb) or []
             rb = ctx.arms(b, subst=sb) or []
             for (tta, Ia), (ttb, Ib) in zip(ra, rb):
-                label = adt.split("::")[-1] + ((":" + sb["Op"]["path"].split("::")[-1]) if sb else "")
+                label = adt.split("::")[-1] + ((":" + list(sb.values())[0]["path"].split("::")[-1]) if sb else "")
                 row = Row(res, ctx, "bytes-ptr-agree:" + label, b, tta, Ia)
                 va = [e["value"] for e in Ia.all_effects(("RETURN",))]
                 vb = [e["value"] for e in Ib.all_effects(("RETURN",))]
@@ -1104,10 +1106,10 @@ def _misc_rows(res, ctx, arms):
     for sp, p in targets:
         substs = [None]
         if sp == "ops::temp::TempValue":
-            substs = [{"Op": im["self_ty"]} for im in fx.impls_of("ops::temp::Operation")]
+            substs = [{ctx.tparam(p, 0): im["self_ty"]} for im in fx.impls_of("ops::temp::Operation")]
         for sb in substs:
             for tt, I in (ctx.arms(p, subst=sb) or []):
-                label = sp.split("::")[-1] + ((":" + sb["Op"]["path"].split("::")[-1]) if sb else "")
+                label = sp.split("::")[-1] + ((":" + list(sb.values())[0]["path"].split("::")[-1]) if sb else "")
                 row = Row(res, ctx, "clone_into:" + label, p, tt, I)
                 cl = I.all_effects(("CLONE",))
                 ci = I.all_effects(("CLONE_INTO",))
